@@ -291,6 +291,11 @@ def main(argv=None):
             results = list(pool.imap_unordered(run_shard, jobs))
     results.sort(key=lambda r: r['shard'])
 
+    if hasattr(prop, 'teardown'):
+        try:
+            prop.teardown()
+        except Exception:
+            pass
     herr = [r['harness_error'] for r in results if r['harness_error']]
     if herr:
         print(herr[0])
